@@ -2,7 +2,7 @@ from pyvc.cbase import Registry
 
 
 def build_registry():
-    from . import externs, expect, spawnbase, screen, ansi, utils, transports, lifecycle, readpath, pxssh, run, replwrap, aio, patterns
+    from . import externs, expect, spawnbase, screen, ansi, utils, transports, lifecycle, readpath, pxssh, run, replwrap, aio, patterns, exact
     reg = Registry()
     externs.register(reg)
     spawnbase.register(reg)
@@ -18,4 +18,5 @@ def build_registry():
     replwrap.register(reg)
     aio.register(reg)
     patterns.register(reg)
+    exact.register(reg)
     return reg
